@@ -25,7 +25,7 @@ RULE = ("Texts are generated as (a) grammatical scripts rendered from the script
         "distribution of the first bad token over rule contexts.")
 ASSUMPTIONS = ["reference recogniser (bbv/g4) equals the grammar's language; cross-checked against the shipped parser by C14",
                "exceptions of grammatical scripts raised by the semantic stage are C11's business"]
-BUDGET = {"quick": (6000, 4), "thorough": (320000, 16)}
+BUDGET = {"quick": (5000, 4), "thorough": (320000, 16)}
 
 _CFGS = [S.Cfg(max_items=5, depth=1, params=True, regs=True, ascii_only=True),
          S.Cfg(max_items=5, depth=2, params=True, ascii_only=True, tdm=True, sym_vars=False)]
